@@ -24,6 +24,12 @@ CLAIMED = {
  "C08": dict(level="proof", design="DESIGN.md 4/C08",
    text="from_block proved field by field; for every sealed state s whose block is the argument, the rebuilt state has the same contents in every component (root injectivity) - under the envelope tips == 0; the excluded domain is the genuine defect F-C08-tips (real-code witness).",
    note=TRUST + "equal contents => equal futures rests on the transition contracts mentioning only the views (A-DET).", technique=T_VERUS),
+ "C11": dict(level="other", design="DESIGN.md 4/C11",
+   text="Per-function part of the cost property: opcodes_weight/opcodes_car_weight proved to terminate (decreases), to equal the recursive saturating weight spec (loop = body x iterations + 1, body cut at the slice end), and to give every instruction weight >= 1. The global bound (executed instructions <= weight for every program) and the cost of weighing itself are not decided here.",
+   note=TRUST + "Not decided: steps <= weight for all programs; polynomial weighing work (exponential re-weighing of nested-to-the-end loops was confirmed on the real code: DESIGN 4/C11); wall-clock/memory bounds are not expressible as contracts.", technique=T_VERUS),
+ "C12": dict(level="proof", design="DESIGN.md 4/C12",
+   text="Covenant::from_bytes proved to decode exactly dec_all(bytes) (whole input, no panic) and to_bytes/hash to produce enc_all(ops); lemmas: decode-then-encode returns the same bytes, encode-then-decode the same program. The per-instruction facts K1/K2 they rest on are discharged by Kani/CBMC on the real compiled OpCode::{decode,encode} in the thorough tier (complete: loop-free over all <=35-byte inputs / all operands) and assumed in the quick tier.",
+   note=TRUST + "A-HANDOVER: K1/K2 as stated in lemmas/codec.rs are what the Kani harnesses assert; locality of decode in the unread tail (std::io::Read for &[u8]).", technique=T_VERUS + " + Kani/CBMC full-domain harnesses (thorough)"),
  "C13": dict(level="proof", design="DESIGN.md 4/C13",
    text="stake_is_consistent <=> the three conditions; load_stake_info registers exactly the consistent SYM stakes and rejects malformed ones; check_tx_validity rejects inputs whose creating transaction is a registered or new stake; StakeSet::votes/total_votes equal the order-independent sum over stakes with start <= epoch < end; unlock_old keeps exactly e_post_end >= epoch.",
    note=TRUST + "Lock window over histories (next_unsealed chain) and stakes_hash commitment pending in the seal unit.", technique=T_VERUS),
